@@ -231,7 +231,7 @@ def run(ctx):
     ctx.assume("grapheme counts are never 0 (THR-G2/THR-G3)")
     prog = common.view(ctx, "default")
     lib = prog.lib
-    roles = common.role_fields(ctx, lib)
+    roles = common.role_fields(ctx, lib, want=())
     ins = tri1(ctx, lib)
     qnt1(ctx, lib, roles)
     grpq1(ctx, lib)
